@@ -1,1 +1,226 @@
+(* JsMin/Proofs.v — lemmas for C33. *)
 From JsMin Require Import Model.
+From Coq Require Import String.
+Open Scope N_scope.
+
+Lemma mem_In x l : mem x l = true <-> In x l.
+Proof.
+  unfold mem. rewrite existsb_exists. split.
+  - intros [y [Hy He]]. apply str_eqb_eq in He. subst. exact Hy.
+  - intros H. exists x. split; [exact H|]. apply str_eqb_eq. reflexivity.
+Qed.
+
+Lemma mem_false_notIn x l : mem x l = false <-> ~ In x l.
+Proof. rewrite <- mem_In. destruct (mem x l); split; congruence. Qed.
+
+(* ------------------------------------------------------------------ fresh, injective short names *)
+Lemma find_fresh_spec : forall fuel n ex s n', find_fresh fuel n ex = Some (s, n') -> mem s ex = false.
+Proof.
+  induction fuel as [|f IH]; intros n ex s n' H; cbn [find_fresh] in H; [discriminate|].
+  destruct (mem (gen_name n) ex) eqn:E.
+  - eapply IH; exact H.
+  - inversion H; subst. exact E.
+Qed.
+
+Lemma build_map_spec : forall order n ex m,
+  build_map order n ex = Some m ->
+  map fst m = order /\ (forall s, In s (map snd m) -> ~ In s ex) /\ NoDup (map snd m).
+Proof.
+  induction order as [|x r IH]; intros n ex m H; cbn [build_map] in H.
+  - inversion H; subst. cbn. repeat split; [intros s []|constructor].
+  - destruct (find_fresh (S (List.length ex)) n ex) as [[short n']|] eqn:Ef; [|discriminate].
+    destruct (build_map r n' (short :: ex)) as [m'|] eqn:Eb; [|discriminate].
+    inversion H; subst. apply IH in Eb as [Hf [Hfr Hnd]].
+    apply find_fresh_spec in Ef. apply mem_false_notIn in Ef.
+    cbn [map fst snd]. repeat split.
+    + rewrite Hf. reflexivity.
+    + intros s [Hs|Hs]; [subst; exact Ef|]. intros Hin. apply (Hfr s Hs). right. exact Hin.
+    + constructor; [|exact Hnd]. intros Hin. apply (Hfr short Hin). left. reflexivity.
+Qed.
+
+Lemma lookup_In : forall x m v, lookup x m = Some v -> In x (map fst m) /\ In v (map snd m).
+Proof.
+  induction m as [|[k w] r IH]; intros v H; cbn [lookup] in H; [discriminate|].
+  destruct (str_eqb x k) eqn:E.
+  - inversion H; subst. apply str_eqb_eq in E. subst. cbn. auto.
+  - apply IH in H as [H1 H2]. cbn. auto.
+Qed.
+
+(* ------------------------------------------------------------------ per-token specification of the apply loop *)
+Definition tok_spec (m : list (str * str)) (t : tok) (o : list tok) (dot : bool) : Prop :=
+  o = [t] \/
+  (is_id t = true /\ dot = false /\
+   exists short, lookup (snd t) m = Some short /\ (o = [(tkIdent, short)] \/ o = [t; colon; (tkIdent, short)])).
+
+Lemma rename_tok_spec m ctx rres t rest : tok_spec m t (rename_tok m ctx rres t rest) (after_dot rres).
+Proof.
+  unfold rename_tok, tok_spec.
+  destruct (is_id t) eqn:Eid; cbn [negb]; [|left; reflexivity].
+  destruct (lookup (snd t) m) as [short|] eqn:El; [|left; reflexivity].
+  destruct (after_dot rres) eqn:Ed; [left; reflexivity|].
+  destruct (match ctx with c :: _ => c =? 123 | [] => false end && _).
+  - destruct (opt_is_p (first_nonws rest) ":"); [left; reflexivity|].
+    destruct (opt_is_p (first_nonws rest) "," || opt_is_p (first_nonws rest) "}");
+      right; repeat split; exists short; auto.
+  - right; repeat split; exists short; auto.
+Qed.
+
+Lemma is_p_ident k v s : k = tkIdent -> is_p (k, v) s = false.
+Proof. intros ->. reflexivity. Qed.
+
+(* the last non-blank token of the output is a dot exactly when the last non-blank input token is *)
+Lemma after_dot_step m t o d rres rin :
+  tok_spec m t o d -> after_dot rres = after_dot rin -> after_dot (rev o ++ rres) = after_dot (t :: rin).
+Proof.
+  intros Hs Hinv. unfold after_dot in *.
+  destruct Hs as [->|[Hid [_ [short [_ [->| ->]]]]]].
+  - cbn [rev app first_nonws]. destruct (fst t =? tkWS); [exact Hinv|reflexivity].
+  - destruct t as [k v]. unfold is_id in Hid. cbn [fst] in Hid. apply N.eqb_eq in Hid. subst k.
+    cbn. reflexivity.
+  - destruct t as [k v]. unfold is_id in Hid. cbn [fst] in Hid. apply N.eqb_eq in Hid. subst k.
+    cbn. reflexivity.
+Qed.
+
+Lemma rename_loop_spec fx m : forall ts ctx rres rin i t,
+  after_dot rres = after_dot rin ->
+  nth_error ts i = Some t ->
+  exists o, nth_error (rename_loop fx m ts ctx rres) i = Some o /\
+            tok_spec m t o (after_dot (rev (firstn i ts) ++ rin)).
+Proof.
+  induction ts as [|t0 ts IH]; intros ctx rres rin i t Hinv Hn.
+  - destruct i; discriminate.
+  - cbn [rename_loop]. destruct i as [|i].
+    + cbn in Hn. inversion Hn; subst. eexists. split; [reflexivity|].
+      cbn [firstn rev app]. rewrite <- Hinv. apply rename_tok_spec.
+    + cbn [nth_error] in *.
+      set (ctx' := ctx_step fx t0 rres ctx).
+      set (o0 := rename_tok m ctx' rres t0 ts).
+      assert (H0 : tok_spec m t0 o0 (after_dot rres)) by apply rename_tok_spec.
+      destruct (IH ctx' (rev o0 ++ rres) (t0 :: rin) i t) as [o [Ho Hs]].
+      * eapply after_dot_step; eauto.
+      * exact Hn.
+      * exists o. split; [exact Ho|].
+        cbn [firstn rev]. rewrite <- app_assoc. exact Hs.
+Qed.
+
+Lemma rename_outs_spec fx order ts outs i t :
+  rename_outs fx order ts = Some outs ->
+  nth_error ts i = Some t ->
+  exists o, nth_error outs i = Some o /\
+    (o = [t] \/
+     (is_id t = true /\ In (snd t) order /\ after_dot (rev (firstn i ts)) = false /\
+      exists m short, build_map order 0 (idents_of ts) = Some m /\ lookup (snd t) m = Some short /\
+                      (o = [(tkIdent, short)] \/ o = [t; colon; (tkIdent, short)]))).
+Proof.
+  unfold rename_outs. intros H Hn. destruct order as [|x r].
+  - inversion H; subst. exists [t]. split; [|left; reflexivity].
+    rewrite nth_error_map, Hn. reflexivity.
+  - destruct (build_map (x :: r) 0 (idents_of ts)) as [m|] eqn:Eb; [|discriminate].
+    inversion H; subst.
+    destruct (rename_loop_spec fx m ts [] [] [] i t eq_refl Hn) as [o [Ho Hs]].
+    exists o. split; [exact Ho|]. rewrite app_nil_r in Hs.
+    destruct Hs as [->|[Hid [Hd [short [Hl Hor]]]]]; [left; reflexivity|].
+    right. repeat split; auto.
+    + apply build_map_spec in Eb as [Hf _]. rewrite <- Hf. eapply lookup_In; eauto.
+    + exists m, short. auto.
+Qed.
+
+(* ------------------------------------------------------------------ what collectLocals can collect *)
+Definition okl (l : list str) : Prop := Forall (fun x => reserved x = false) l.
+
+Lemma add_ok x l : reserved x = false -> okl l -> okl (add x l).
+Proof.
+  intros Hx Hl. unfold add. destruct (mem x l); [exact Hl|].
+  apply Forall_app. split; [exact Hl|]. constructor; [exact Hx|constructor].
+Qed.
+
+Lemma guard_nonres t : is_id t && negb (reserved (snd t)) = true -> reserved (snd t) = false.
+Proof. intros H. apply andb_true_iff in H as [_ H]. destruct (reserved (snd t)); [discriminate|reflexivity]. Qed.
+
+Lemma collect_params_ok : forall ts d L, okl L -> okl (snd (collect_params d ts L)).
+Proof.
+  induction ts as [|t r IH]; intros d L HL; cbn [collect_params]; [exact HL|].
+  destruct (is_p t "("); [apply IH; exact HL|].
+  destruct (is_p t ")").
+  - destruct d as [|[|d]]; [exact HL|exact HL|apply IH; exact HL].
+  - destruct (is_id t && negb (reserved (snd t))) eqn:E.
+    + apply IH. apply add_ok; [apply guard_nonres; exact E|exact HL].
+    + apply IH; exact HL.
+Qed.
+
+Lemma decl_pattern_ok : forall ts nest T, okl T -> okl (snd (decl_pattern nest ts T)).
+Proof.
+  induction ts as [|t r IH]; intros nest T HT; cbn [decl_pattern]; [exact HT|].
+  destruct (nest <=? 0)%Z; [exact HT|].
+  apply IH.
+  destruct (is_id t && (0 <? _)%Z && negb (reserved (snd t))) eqn:E; [|exact HT].
+  apply add_ok; [|exact HT].
+  apply andb_true_iff in E as [_ E]. destruct (reserved (snd t)); [discriminate|reflexivity].
+Qed.
+
+Lemma decl_loop_ok : forall fuel ts T, okl T -> okl (snd (decl_loop fuel ts T)).
+Proof.
+  induction fuel as [|f IH]; intros ts T HT; cbn [decl_loop]; [exact HT|].
+  destruct (skip_ws ts) as [|cur r]; [exact HT|].
+  assert (Hafter : forall ts1 T1,
+            (if is_id cur && negb (reserved (snd cur)) then Some (r, add (snd cur) T)
+             else if is_p cur "{" || is_p cur "[" then Some (decl_pattern 1 r T) else None) = Some (ts1, T1) -> okl T1).
+  { intros ts1 T1 H. destruct (is_id cur && negb (reserved (snd cur))) eqn:E.
+    - inversion H; subst. apply add_ok; [apply guard_nonres; exact E|exact HT].
+    - destruct (is_p cur "{" || is_p cur "["); [|discriminate].
+      inversion H as [H1]. pose proof (decl_pattern_ok r 1%Z T HT) as Hp. rewrite H1 in Hp. exact Hp. }
+  destruct (if is_id cur && negb (reserved (snd cur)) then _ else _) as [[ts1 T1]|] eqn:Ea; [|exact HT].
+  specialize (Hafter ts1 T1 eq_refl).
+  destruct (skip_ws ts1) as [|e r2]; [exact Hafter|].
+  destruct (skip_ws (if is_p e "=" then skip_init 0 r2 else e :: r2)) as [|c r3]; [exact Hafter|].
+  destruct (is_p c ","); [apply IH; exact Hafter|exact Hafter].
+Qed.
+
+Lemma collect_ok : forall fuel ts depth L F, okl L -> okl F ->
+  okl (fst (collect fuel ts depth L F)) /\ okl (snd (collect fuel ts depth L F)).
+Proof.
+  induction fuel as [|f IH]; intros ts depth L F HL HF; cbn [collect]; [split; assumption|].
+  destruct ts as [|t r]; [split; assumption|].
+  destruct (fst t =? tkPunct); [apply IH; assumption|].
+  destruct (negb (is_id t)); [apply IH; assumption|].
+  destruct (kw_decl (snd t)).
+  - destruct (depth =? 0).
+    + pose proof (decl_loop_ok (S (List.length r)) r F HF) as Hd.
+      destruct (decl_loop (S (List.length r)) r F) as [ts' F']. apply IH; assumption.
+    + pose proof (decl_loop_ok (S (List.length r)) r L HL) as Hd.
+      destruct (decl_loop (S (List.length r)) r L) as [ts' L']. apply IH; assumption.
+  - destruct (kw_fun (snd t)); [|apply IH; assumption].
+    destruct (skip_ws r) as [|nm r1]; [split; assumption|].
+    set (named := is_id nm && negb (reserved (snd nm))).
+    assert (HF' : okl (if named && (depth =? 0) then add (snd nm) F else F)).
+    { destruct (named && (depth =? 0)) eqn:E; [|exact HF].
+      apply add_ok; [|exact HF]. apply andb_true_iff in E as [E _]. apply guard_nonres. exact E. }
+    destruct (if named then skip_ws r1 else nm :: r1) as [|p r2]; [split; assumption|].
+    destruct (is_p p "(").
+    + pose proof (collect_params_ok r2 1 L HL) as Hp.
+      destruct (collect_params 1 r2 L) as [ts' L']. apply IH; assumption.
+    + apply IH; assumption.
+Qed.
+
+Lemma renamable_spec fx ts x :
+  In x (renamable fx ts) ->
+  reserved x = false /\ ~ In x (snd (collect_locals ts)) /\ (fx = true -> ~ In x (template_names ts)).
+Proof.
+  unfold renamable, collect_locals.
+  pose proof (collect_ok (S (List.length ts)) ts 0 [] [] (Forall_nil _) (Forall_nil _)) as [HL _].
+  destruct (collect (S (List.length ts)) ts 0 [] []) as [L F]. cbn [fst snd] in *.
+  intros Hin.
+  assert (H1 : In x (filter (fun x => negb (mem x F)) L) /\ (fx = true -> ~ In x (template_names ts))).
+  { destruct fx.
+    - apply filter_In in Hin as [Hin Ht]. split; [exact Hin|]. intros _.
+      apply mem_false_notIn. destruct (mem x (template_names ts)); [discriminate|reflexivity].
+    - split; [exact Hin|discriminate]. }
+  destruct H1 as [H1 H2]. apply filter_In in H1 as [HinL HnF].
+  repeat split.
+  - unfold okl in HL. rewrite Forall_forall in HL. apply HL. exact HinL.
+  - apply mem_false_notIn. destruct (mem x F); [discriminate|reflexivity].
+  - exact H2.
+Qed.
+
+(* the set is not empty in general: a witness used by the Examples *)
+Definition ex_src : str := s2l "var g = 1; function f(p){ let q = g + p; return {q, k: `${p}`} . k; }".
